@@ -37,6 +37,8 @@ def single(cfg, crate, rep):
             "yasna::models::GeneralizedTime::from_datetime_and_sub_nano", "yasna::models::GeneralizedTime::from_datetime_and_sub_nano_opt", "yasna::models::UTCTime::parse", "yasna::models::GeneralizedTime::parse")
     writers = ("yasna::DERWriter::write_utctime", "yasna::DERWriter::write_generalized_time")
     # helpers of the shared time writer: everything the writer (transitively) calls inside the crate
+    import c10
+    G_ = c10.call_graph(crate)[0]
     reach = {HELPER, "dt_to_generalized"}
     stack = [HELPER, "dt_to_generalized"]
     while stack:
@@ -46,6 +48,10 @@ def single(cfg, crate, rep):
             continue
         for callee, node, ps in common.calls_in(b_):
             if callee in crate.bodies and callee not in reach:
+                reach.add(callee)
+                stack.append(callee)
+        for callee in G_.get(f_, ()):          # resolved edges: a local trait's method goes to its local impls
+            if callee in crate.bodies and callee not in reach and not common.is_test_fn(callee):
                 reach.add(callee)
                 stack.append(callee)
     allowed_ctor = reach
@@ -61,6 +67,8 @@ def single(cfg, crate, rep):
                 owners_ = common.known_owners(crate, name)
                 if len(owners_) == 1:
                     owner = sorted(owners_)[0]
+                elif callee in writers and len(owners_) > 1 and owners_ <= allowed_writer:
+                    owner = sorted(owners_)[0]      # shared by several known functions, each of which may write times
             if callee in ctor:
                 n += 1
                 rep.ob("C09.single", "%s|ctor|%s|%s" % (cfg, owner, callee.split("::")[-2] + "::" + callee.split("::")[-1]), owner in allowed_ctor and callee.endswith("::from_datetime"),
@@ -154,9 +162,13 @@ def helper(cfg, crate, rep):
         rep.ob("C09.nanos", key + "|" + nm, "dt_strip_nanos" in via or ("dt_to_generalized" in via), "the encoded value went through the sub-second truncation", found=sorted(via), sp=s[2].get("sp"))
         rep.ob("C09.nanos", key + "|" + nm + "|same-value", places(v) == {"dt"}, "the encoded value is the caller's value", found=sorted(places(v)))
     # dt_to_generalized = from_datetime(dt_strip_nanos(dt))
-    v = core(Interp(crate).run_fn("dt_to_generalized")["value"])
-    ok = isinstance(v, CallV) and v.callee.endswith("GeneralizedTime::from_datetime") and isinstance(core(v.args[0]), CallV) and core(v.args[0]).callee == "dt_strip_nanos" and places(v) == {"dt"}
-    rep.ob("C09.nanos", "%s|dt_to_generalized" % cfg, ok, "dt_to_generalized = GeneralizedTime::from_datetime(dt_strip_nanos(dt))", found=v.r())
+    if "dt_to_generalized" not in crate.bodies:
+        # the GeneralizedTime-only helper was folded into something else: every site then shows its own truncation
+        # (the obligations above / the invalidityDate site accept `dt_to_generalized` only as a function that exists)
+        rep.sample({"rule": "C09.nanos", "cfg": cfg, "note": "no dt_to_generalized in this tree"})
+    v = core(Interp(crate).run_fn("dt_to_generalized")["value"]) if "dt_to_generalized" in crate.bodies else None
+    ok = v is None or isinstance(v, CallV) and v.callee.endswith("GeneralizedTime::from_datetime") and isinstance(core(v.args[0]), CallV) and core(v.args[0]).callee == "dt_strip_nanos" and places(v) == {"dt"}
+    rep.ob("C09.nanos", "%s|dt_to_generalized" % cfg, ok, "dt_to_generalized = GeneralizedTime::from_datetime(dt_strip_nanos(dt))", found=v.r() if v is not None else "absent")
     # dt_strip_nanos = dt.replace_time(Time::from_hms(dt.hour(), dt.minute(), dt.second()))
     v = core(Interp(crate).run_fn("dt_strip_nanos")["value"])
     ok = isinstance(v, CallV) and v.callee.endswith("OffsetDateTime::replace_time") and core(v.args[0]).r() == "dt"
